@@ -49,7 +49,7 @@ pub struct Arrangement {
     /// never be read: the standard library is built in); 6: as 5, the decoy has a syntax error;
     /// 7: as 0, and every directory that lacks one of the files holds a *directory* of that name;
     /// 8: as 0, and every file ends with an annotation line (which belongs to whatever follows
-    /// the include)
+    /// the include); 9: file a is empty, file b holds white space only, c a comment only
     pub b_kind: u8,
 }
 
@@ -58,9 +58,11 @@ pub const FILES: [&str; 3] = ["a.inc", "b.inc", "c.inc"];
 fn content(f: usize, dir: usize, b_kind: u8) -> String {
     // the literal identifies the directory the file was taken from
     match f {
+        0 if b_kind == 9 => String::new(),
         0 if b_kind == 8 => format!("int va = {};\nbit[2] ma;\n@tail a\n", 10 + dir),
         0 => format!("int va = {};\nbit[2] ma;\n", 10 + dir),
         1 => match b_kind {
+            9 => "  \n\t\n".to_string(),
             8 => format!("int vb = {};\n@tail b 1\n@tail b 2\n", 20 + dir),
             0 | 5 | 6 | 7 => format!("int vb = {};\n", 20 + dir),
             1 => format!("int vb = {};\nint wb = va;\n", 20 + dir),
@@ -68,6 +70,7 @@ fn content(f: usize, dir: usize, b_kind: u8) -> String {
             4 => format!("int vb = 0b;\nint wb = {};\n", 20 + dir),
             _ => format!("include \"a.inc\";\nint vb = {};\n", 20 + dir),
         },
+        _ if b_kind == 9 => "// nothing here\n".to_string(),
         _ if b_kind == 8 => format!("include \"b.inc\";\nint vc = {};\n@tail c\n", 30 + dir),
         _ => format!("include \"b.inc\";\nint vc = {};\n", 30 + dir),
     }
@@ -273,7 +276,7 @@ impl Configs {
                 presence.push((x % masks) as u8);
                 x /= masks;
             }
-            for b_kind in 0..9u8 {
+            for b_kind in 0..10u8 {
                 // kinds 1 to 4 only matter when b is present somewhere
                 if (1..=4).contains(&b_kind) && presence.get(1).copied().unwrap_or(0) == 0 {
                     continue;
